@@ -42,7 +42,16 @@ fn main() {
             let fam = checks::family(&args[2]);
             let i: usize = args[4].parse().unwrap();
             let t0 = std::time::Instant::now();
-            let r = fam.check_idx(&args[3], i, &drive::Mode::default());
+            let mut mode = drive::Mode::default();
+            if let Ok(pb) = std::env::var("VX_PB") {
+                mode.preemption_bound = pb.parse().ok();
+                mode.complete = false;
+            }
+            stackcache::enable();
+            let r = fam.check_idx(&args[3], i, &mode);
+            for v in r.violations.iter().take(3) {
+                println!("VIOL {:?} {} :: {}", v.kind, v.culprit, v.what.chars().take(300).collect::<String>());
+            }
             println!("execs {} decisions {} in {:?}; cosim time {:?}", r.executions, r.decisions, t0.elapsed(), vx::drive::COSIM_NANOS.with(|c| std::time::Duration::from_nanos(c.get())));
         }
         Some("describe") => {
